@@ -131,7 +131,7 @@ type KCand struct {
 }
 
 // PickCaps bounds the number of cases per kind written to the case files.
-type PickCaps struct{ Pick, Finish, Overlaps, MemLevel, Wf int }
+type PickCaps struct{ Pick, Finish, Overlaps, MemLevel, Wf, Build, Retry int }
 
 // PickCol gathers candidates over all runs of a command (safe for concurrent runs).
 type PickCol struct {
@@ -152,6 +152,10 @@ func (c *PickCol) capOf(kind string) int {
 		return c.Caps.Overlaps
 	case "memlevel":
 		return c.Caps.MemLevel
+	case "build":
+		return c.Caps.Build
+	case "retry":
+		return c.Caps.Retry
 	}
 	return c.Caps.Wf
 }
@@ -198,7 +202,7 @@ func (c *PickCol) Select(shards int) (cases []string, counts map[string]int) {
 	defer c.mu.Unlock()
 	counts = map[string]int{}
 	var chosen []KCand
-	for _, kind := range []string{"pick", "finish", "overlaps", "memlevel", "wf"} {
+	for _, kind := range []string{"pick", "finish", "overlaps", "memlevel", "wf", "build", "retry"} {
 		n := c.capOf(kind)
 		// the top class takes what it needs up to two thirds of the cap (more only if the other classes leave room)
 		nTop := len(c.cands[kind+"!!"])
@@ -259,12 +263,22 @@ type pickRun struct {
 	nFin     int
 	nOv      int
 	nMem     int
+	nBuild   int
+	// FaultHits (optional) reports how many injected storage faults have fired so far on the run's storage
+	FaultHits func() int
+	lastHits  int
 }
 
 // PickHooks returns the run hooks of the C06 command: the inputs-closed oracle and (when collect) the case
 // collection on every committed record, and the getOverlaps/pickMemdbLevel probes after every few ops.
 func PickHooks(col *PickCol, kr *vlib.RNG, collect bool, checkEvery int) Hooks {
-	pr := &pickRun{col: col, collect: collect && kr != nil && col != nil, kr: kr}
+	return PickHooksFaults(col, kr, collect, checkEvery, nil)
+}
+
+// PickHooksFaults is PickHooks for a run whose storage gets faults injected: builder cases of compactions during which
+// a fault fired are kept in preference.
+func PickHooksFaults(col *PickCol, kr *vlib.RNG, collect bool, checkEvery int, faultHits func() int) Hooks {
+	pr := &pickRun{col: col, collect: collect && kr != nil && col != nil, kr: kr, FaultHits: faultHits}
 	h := Hooks{CheckEvery: checkEvery, OnEdit: pr.onEdit}
 	if pr.collect {
 		h.AfterOp = pr.afterOp
@@ -487,6 +501,27 @@ func (pr *pickRun) onEdit(r *Runner, e leveldb.VerifEdit) {
 	}
 	if len(p.GP) > 0 {
 		r.Stats["picks_observed_with_grandparents"]++
+	}
+	if pr.collect && !moved && pr.col.Caps.Build > 0 && pr.nBuild < 8 {
+		// the builder case: the failure-free model builder must write exactly the installed tables
+		if c, tags, ok := r.RenderKBuild(e, p); ok {
+			hot := false
+			for _, t := range tags {
+				if t == "k_build_several_outputs" || t == "k_build_with_grandparents" {
+					hot = true
+				}
+			}
+			top := false
+			if pr.FaultHits != nil {
+				if h := pr.FaultHits(); h > pr.lastHits {
+					pr.lastHits = h
+					top = true
+					tags = append(tags, "k_build_after_injected_faults")
+				}
+			}
+			pr.col.Add(KCand{Kind: "build", Top: top, Hot: hot, Tags: tags, Text: c})
+			pr.nBuild++
+		}
 	}
 	if !pr.collect || len(p.Version) > MaxKTables {
 		return
